@@ -23,7 +23,7 @@ From DD Require Import Base.PyStr Base.Value Diff.Tree Diff.DiffModel Hash.HashM
   HashDiff.HashDiffModel HashDiff.HashDiffProofsDefault HashDiff.HashDiffProofsNum
   HashDiff.HashDiffProofsAtoms HashDiff.HashDiffProofsInv HashDiff.HashDiffProofsLift HashDiff.HashDiffProofsKeys
   HashDiff.HashDiffProofsWitness HashDiff.HashDiffProofsSat HashDiff.HashDiffProofsParts HashDiff.HashDiffProofsWitness2.
-From DD Require Options.OptDtModel Options.YValue Options.YModel HashDiff.HashDiffYModel HashDiff.HashDiffYProofs HashDiff.HashDiffYWitness HashDiff.HashDiffYSets.
+From DD Require Options.OptDtModel Options.YValue Options.YModel HashDiff.HashDiffYModel HashDiff.HashDiffYProofs HashDiff.HashDiffYWitness HashDiff.HashDiffYSets HashDiff.HashDiffYEnum.
 From DD Require HashDiff.HashDiffTextModel HashDiff.HashDiffTextProofs.
 
 (* ------------------------------------------------------------------------- *)
@@ -478,6 +478,24 @@ Theorem C12_enum_transfer_partial :
    (yh_atom H F (atom_of_e v) = yh_atom H F (unwrap F b) <-> dispatch udiff F false (atom_of_e v) (unwrap F b) p1 p2 = Ok [])).
 Proof. exact y_enum_transfer. Qed.
 Print Assumptions C12_enum_transfer_partial.
+
+(* self-contained form: when the member's value and the (unwrapped) other side have the SAME TYPE, _diff treats the
+   member exactly as its value, so the property for the pair IS the property for the two values
+   (values of different types: C12_enum_unwrap_skips_type_check_refuted) *)
+Theorem C12_enum_same_type :
+  forall udiff F, o_enum F = true ->
+  forall (H : pystr -> pystr) c n o v b p1 p2,
+  o_excl F = [] -> o_nan F = false -> other_class c b = true ->
+  is_none (atom_of_e v) = false -> ty_eqb (atom_ty (atom_of_e v)) (atom_ty (unwrap F b)) = true ->
+  leafR udiff F (AEnum c n o v) b p1 p2 = leafR udiff F (atom_of_e v) (unwrap F b) p1 p2 /\
+  ((yh_atom H F (AEnum c n o v) = yh_atom H F b <-> leafR udiff F (AEnum c n o v) b p1 p2 = Ok []) <->
+   (yh_atom H F (atom_of_e v) = yh_atom H F (unwrap F b) <-> leafR udiff F (atom_of_e v) (unwrap F b) p1 p2 = Ok [])).
+Proof.
+  intros udiff F E H c n o v b p1 p2 Hx Hn Hc Na T. split.
+  - apply (HashDiffYEnum.leafR_enum_same_type udiff F E); assumption.
+  - apply (HashDiffYEnum.y_enum_same_type udiff F E); assumption.
+Qed.
+Print Assumptions C12_enum_same_type.
 
 (* the None edge case of _diff after unwrapping, as FIXED in /repo c9e614d (it was finding C12-enum-none-value:
    values_changed None -> None): a None-valued member facing None / a None-valued member of another
